@@ -30,8 +30,8 @@
 (*     srv    "up", "down" (nobody listens at the endpoint), "negdrop"     *)
 (*            (connection lost during option negotiation), "negbad"        *)
 (*            (garbage instead of the negotiation answer), "negver"        *)
-(*            (milter speaks protocol version 1), "lib" (the server side   *)
-(*            of github.com/emersion/go-milter answers)                    *)
+(*            (milter speaks protocol version 1 and hangs up), "lib" (the  *)
+(*            server side of github.com/emersion/go-milter answers)        *)
 (*     net    "tcp" / "unix": scheme of the endpoint; form "inline"        *)
 (*            (module argument) / "directive" (endpoint directive)         *)
 (*     ver    protocol version the milter announces                        *)
@@ -83,10 +83,8 @@
 (*        rejecting final answer delivers the message (flagged) (X07-F3)   *)
 (*   "ReplyCodeUnchecked"    a reply code outside 4yz / 5yz becomes the    *)
 (*        code of the "rejection" (X07-F4)                                 *)
-(*   "NegFailLeaksConn"      the connection of a failed negotiation is     *)
-(*        never closed (go-milter Client.Session) (X07-F5)                 *)
 (***************************************************************************)
-EXTENDS Naturals, Integers, Sequences, FiniteSets, TLC, Json
+EXTENDS ExtScanBase
 
 CONSTANTS MaxRcpt,   \* recipients of the main table (1..2)
           Full,      \* TRUE: full cross of modifications x final answers, all side tables
@@ -98,10 +96,8 @@ CONSTANTS MaxRcpt,   \* recipients of the main table (1..2)
 VARIABLE in
 vars == <<in>>
 
-AllDevs == {"DialIgnoresFailOpen", "NilConnPanic", "QuarantineMasksReject", "ReplyCodeUnchecked", "NegFailLeaksConn"}
+AllDevs == {"DialIgnoresFailOpen", "NilConnPanic", "QuarantineMasksReject", "ReplyCodeUnchecked"}
 
-Range(f) == {f[i] : i \in DOMAIN f}
-Last(s) == s[Len(s)]
 
 -----------------------------------------------------------------------------
 (* answers *)
@@ -114,18 +110,10 @@ IoK == {"drop", "garbage", "badreply", "stall"}
 IsIo(a) == a.k \in IoK
 Odd(a) == a.k = "reply" /\ (a.code \div 100) \notin {4, 5}
 
-Policy == "Message rejected due to local policy"
 IoMsg  == "I/O error during policy check"
-
-R(k, code, enchc, ench, temp, msg) == [k |-> k, code |-> code, enchc |-> enchc, ench |-> ench, temp |-> temp, msg |-> msg]
-OkR == R("ok", 0, 0, "", FALSE, "")
-NaR == R("n/a", 0, 0, "", FALSE, "")
-Rej(code, rest, msg) == R("rej", code, code \div 100, ToString(code \div 100) \o rest, (code \div 100) = 4, msg)
-Unannotated == R("rej", 0, 0, "", FALSE, "")
 
 Has(i, opt) == opt \in Range(i.proto)
 FailOpen(i) == i.fo = "yes"                        \* fail_open  Default: false
-E(c, a) == [c |-> c, a |-> a]
 
 -----------------------------------------------------------------------------
 (* the values of the real session, as the milter is to see them            *)
@@ -138,10 +126,7 @@ HeloEntry(c) == E("H", <<IF c.kind = "nil" THEN "localhost" ELSE c.helo>>)
 MailEntry(i) == E("M", <<"<" \o i.from \o ">">> \o (IF i.utf8 THEN <<"SMTPUTF8">> ELSE <<>>))
 RcptEntry(i, j) == E("R", <<"<" \o i.rcpts[j] \o ">">>)
 HdrEntry(i, k) == E("L", <<i.hdr[k].ln, i.hdr[k].nv>>)
-Chunks(b) == CASE b = "empty" -> <<>> [] b = "big" -> <<65535, 4465>> [] OTHER -> <<7>>
 BodyEntry(i, k) == E("B", <<ToString(Chunks(i.body)[k]), "match">>)
-TlsName(t) == CASE t = "1.0" -> "TLSv1" [] t = "1.1" -> "TLSv1.1" [] t = "1.2" -> "TLSv1.2" [] OTHER -> "TLSv1.3"
-Cipher(t) == IF t = "1.3" THEN "TLS_AES_128_GCM_SHA256" ELSE "TLS_ECDHE_RSA_WITH_AES_128_GCM_SHA256"
 AuthOf(i) == IF i.conn.kind = "nil" THEN "" ELSE i.conn.auth
 MacC == E("D", <<"C", "daemon_name", "maddy", "if_name", "unknown", "if_addr", "0.0.0.0">>)
 MacH(c) == E("D", <<"H", "tls_version", TlsName(c.tls), "cipher", Cipher(c.tls)>>)
@@ -167,8 +152,9 @@ FullSeq(i) ==
 (*     skip   the check is over for this message (accept, or an I/O error  *)
 (*            with fail_open): later stages pass without asking            *)
 (*     dead   the script closed the connection / stopped answering         *)
-(*     abort  no answer other than "continue" was read yet (the client     *)
-(*            aborts the dialogue before quitting)                         *)
+(*     abort  no answer other than "continue" was read yet to a command     *)
+(*            before end-of-body (the client then sends an abort before    *)
+(*            it quits; from the code of go-milter, not part of Prop)      *)
 (*     need   first step whose answer was needed and is "?"                *)
 NoNeed == [s |-> "", j |-> 0]
 St0 == [skip |-> FALSE, dead |-> FALSE, abort |-> TRUE, seen |-> <<>>, need |-> NoNeed, panics |-> 0]
@@ -182,7 +168,9 @@ Ask(st, i, s, j, e, ans, nropt) ==
            a  == IF nr \/ ans.k = "?" THEN Cont ELSE ans
        IN [st |-> [st EXCEPT !.seen  = Append(@, e),
                              !.dead  = a.k \in {"drop", "stall"},
-                             !.abort = @ /\ a.k \in (ContK \cup {"drop", "stall"}),
+                             \* (the answer to end-of-body is read together with the modification actions and
+                             \* leaves the flag alone)
+                             !.abort = @ /\ (s = "eob" \/ a.k \in (ContK \cup {"drop", "stall"})),
                              !.need  = IF @ = NoNeed /\ ans.k = "?" /\ ~nr THEN [s |-> s, j |-> j] ELSE @],
            a |-> a]
 Skipped(st) == [st |-> st, a |-> Cont]
@@ -280,7 +268,7 @@ RunFull(devs, i) ==
   IF i.srv \notin {"up", "lib"} THEN
      \* the milter cannot be talked to at all: "milter I/O errors" (fail_open)
      LET conns  == IF i.srv = "down" THEN 0 ELSE 1
-         closed == ~(i.srv = "negver" /\ "NegFailLeaksConn" \in devs)
+         closed == TRUE
      IN IF "DialIgnoresFailOpen" \in devs
         THEN [need |-> NoNeed, out |-> Out(Unannotated, NaRcpts(i), NaR, FALSE, FALSE, <<>>, <<>>, conns, closed, 0)]
         ELSE IF FailOpen(i)
@@ -325,10 +313,6 @@ AnsAt(i, cs, n) ==
                [] c = "N" -> i.script.eoh [] c = "B" -> Nth(i.script.body, Count(cs, n, "B")) [] OTHER -> i.script.fin
   IN IF Has(i, NrOpt(c)) \/ raw.k = "?" THEN Cont ELSE raw
 
-ClassOf(r) == IF r.code = 0 THEN (IF r.temp THEN 4 ELSE 5) ELSE r.code \div 100    \* endpoint/smtp wrapErr: 451 / 554 without annotations
-Coherent(r) == r.k = "rej" /\ (r.code = 0 \/ (r.code \in 400..599 /\ r.temp = (ClassOf(r) = 4) /\ r.enchc = ClassOf(r)))
-TempRej(r) == Coherent(r) /\ ClassOf(r) = 4
-PermRej(r) == Coherent(r) /\ ClassOf(r) = 5
 IoAllowed(i, r) == IF FailOpen(i) THEN r.k = "ok" ELSE TempRej(r)
 (* "accept/continue -> no action; reject -> 5xx; tempfail -> 4xx; reply     *)
 (* code -> that code, class and enhanced class; discard -> not delivered;   *)
@@ -354,7 +338,8 @@ MustEnd(i, cs, n) ==
     \/ (IsIo(a) /\ FailOpen(i))
     \/ (cs[n].c # "R" /\ a.k \notin ContK)
 Dropped(i, cs) == \E n \in 1..Len(cs) : AnsAt(i, cs, n).k \in {"drop", "stall"}
-DeadFC(i, cs) == ~FailOpen(i) /\ Dropped(i, cs)
+(* fail closed and the connection was lost at an earlier stage: the later stages cannot ask and fail alike *)
+DeadFC(i, cs) == ~FailOpen(i) /\ \E n \in 1..Len(cs) : cs[n].c \in {"C", "H", "M", "R"} /\ AnsAt(i, cs, n).k \in {"drop", "stall"}
 Idx(cs, codes) == {n \in 1..Len(cs) : cs[n].c \in codes}
 Max(S) == CHOOSE x \in S : \A y \in S : y <= x
 KVs(a) == {<<a[k], a[k + 1]>> : k \in {x \in 2..(Len(a) - 1) : x % 2 = 0}}
@@ -485,15 +470,6 @@ FinFor(tab) == CASE tab \in {"conn", "hdr", "net", "ver"} -> {A("accept")}
                  [] tab \in {"proto", "nr"} -> {A("accept"), A("reject")}
                  [] OTHER -> AnsFor(tab)
 
-Conn(kind, addr, helo, auth, tls) ==
-  [kind |-> kind, addr |-> addr, port |-> 41000, helo |-> helo, auth |-> auth, tls |-> tls, rdns |-> "none"]
-C4 == Conn("tcp4", "192.0.2.7", "client.sender.test", "", "none")
-NilConn == Conn("nil", "", "", "", "none")
-F(n, v, ln, nv) == [n |-> n, v |-> v, ln |-> ln, nv |-> nv]
-Hdr2 == <<F("From", "<a@sender.test>", "from", "<a@sender.test>"), F("Subject", "verif", "subject", "verif")>>
-HdrOdd == <<F("Received", "from a\r\n\tby b;\r\n  date", "received", "from a by b; date"),
-            F("SUBJECT", "", "subject", ""),
-            F("X-Dup", "one", "x-dup", "one"), F("X-Dup", "two", "x-dup", "two")>>
 Script0(nr, nh, nb) ==
   [conn |-> Unk, helo |-> Unk, mail |-> Unk, rcpt |-> [j \in 1..nr |-> Unk], hdr |-> [k \in 1..nh |-> Unk],
    eoh |-> Unk, body |-> [k \in 1..nb |-> Unk], mods |-> <<>>, fin |-> Unk]
@@ -509,12 +485,6 @@ ProtoSets == {<<"noconnect">>, <<"nohelo">>, <<"nomail">>, <<"norcpt">>, <<"nobo
               <<"noconnect", "nohelo">>, <<"nohdrs", "noeoh", "nobody">>, <<"nomail", "norcpt">>}
 NrSets == {<<"nr_conn">>, <<"nr_helo">>, <<"nr_mail">>, <<"nr_rcpt">>, <<"nr_hdr">>, <<"nr_eoh">>, <<"nr_body">>,
            <<"nr_conn", "nr_helo", "nr_mail", "nr_rcpt", "nr_hdr", "nr_eoh", "nr_body">>}
-ConnKinds == {C4, Conn("mapped", "192.0.2.7", "client.sender.test", "", "none"),
-              Conn("tcp6", "2001:db8::1", "client.sender.test", "", "none"),
-              Conn("unix", "/run/verif/client.sock", "client.sender.test", "", "none"),
-              Conn("other", "", "client.sender.test", "", "none"), NilConn}
-TlsKinds == {"none", "1.0", "1.1", "1.2", "1.3"}
-
 (* (a) every answer at every step, fail_open yes / no *)
 InMain == \E fo \in {"yes", "no"} : in = [Base("main", fo) EXCEPT !.rcpts = Rcpts(MaxRcpt), !.script = Script0(MaxRcpt, 2, 1)]
 (* (b) fail_open absent = no *)
@@ -558,9 +528,7 @@ InStall == \E fo \in {"yes", "no"}, s \in (IF Full THEN {"conn", "mail", "rcpt",
              in = Stalled(fo, s)
 
 (* (k) mixed table: Seed-dependent complete rows crossing the dimensions *)
-HH(x) == LET y == x % 32749 IN (y * y + 7 * y + 12345) % 32749
 Draw(n, k) == HH(HH(HH(Seed * 911 + n) + 31 * k) + n + k)
-Pick(seq, r) == seq[(r % Len(seq)) + 1]
 RAns == <<Cont, Cont, Cont, Cont, Cont, Cont, A("accept"), A("reject"), A("tempfail"), A("discard"), Reply451, Reply554,
           Reply550, A("drop"), A("garbage"), A("badreply"), A("pcont")>>
 RConns == <<C4, C4, Conn("mapped", "198.51.100.77", "mapped.sender.test", "", "none"),
